@@ -384,3 +384,40 @@ fn acquire_protocol() {
 fn call_wiring() {
     crate::verif_kani::c02::one_call(WindowType::Fixed)
 }
+
+/// Configuration reaches the limiter: what `RateLimiterLayer::builder()` is given is what
+/// the window state of the built service uses (limit, period, timeout, window type), and
+/// clones of the service share one state.
+#[kani::proof]
+#[kani::unwind(4)]
+#[kani::stub(std::time::Instant::now, env::now_stub)]
+fn builder_reaches_window_state() {
+    use tower::Layer;
+    init_clock();
+    let limit: usize = kani::any();
+    kani::assume(limit >= 1 && limit <= 1000);
+    let period = any_millis(100_000);
+    let timeout = any_millis(300_000);
+    let wt: u8 = kani::any();
+    let window = match wt % 3 { 0 => WindowType::Fixed, 1 => WindowType::SlidingLog, _ => WindowType::SlidingCounter };
+    let layer = crate::RateLimiterLayer::builder().limit_for_period(limit).refresh_period(period).timeout_duration(timeout).window_type(window).build();
+    let mut script = svc::any_script();
+    script.never = false;
+    let rl = layer.layer(svc::Inner::new(script));
+    let rl2 = rl.clone();
+    assert!(Arc::ptr_eq(&rl.limiter.state, &rl2.limiter.state), "[C02.clones_share_state] clones of the service share one limiter state");
+    let g = rl.limiter.state.lock().unwrap();
+    match (&*g, wt % 3) {
+        (RateLimiterStateInner::Fixed(f), 0) => assert!(f.limit_for_period == limit && f.refresh_period == period && f.timeout_duration == timeout && f.available_permits == limit,
+            "[C02.config_reaches_state] the configured limit, period and timeout are what the fixed window uses; it starts full"),
+        (RateLimiterStateInner::SlidingLog(l), 1) => assert!(l.limit_for_period == limit && l.window_duration == period && l.timeout_duration == timeout && l.request_log.is_empty(),
+            "[C02.config_reaches_state] the configured limit, period and timeout are what the sliding log uses; it starts empty"),
+        (RateLimiterStateInner::SlidingCounter(c), 2) => assert!(c.limit_for_period == limit && c.bucket_duration == period && c.timeout_duration == timeout && c.current_count == 0 && c.previous_count == 0,
+            "[C02.config_reaches_state] the configured limit, period and timeout are what the sliding counter uses; it starts empty"),
+        _ => assert!(false, "[C02.config_window_type] the configured window type selects the window implementation"),
+    }
+    drop(g);
+    std::mem::forget(rl);
+    std::mem::forget(rl2);
+    std::mem::forget(layer);
+}
